@@ -5,3 +5,5 @@ cd "$(dirname "$0")/harness"
 export CARGO_NET_OFFLINE=true
 cp /repo/Cargo.lock Cargo.lock
 cargo build --release --offline
+# secondary configuration used by C16/C19 (release profile: no debug assertions, no overflow checks)
+cargo build --profile rel --features lite --offline
